@@ -155,7 +155,7 @@ static void evzk(const char *name, int k, int n, va_list ap){
     va_end(aq);
     /* dropped: an idle worker's attempt that returned nothing and (queue events) left an empty queue */
     if (k > 0 && k <= n && a[k - 1] == 0 && a[n - 1] == 0) return;
-    if (k > 0 && k <= n && a[k - 1] != 0) idle[me] = 0;   /* got a thread: no longer idle (SchedRun follows) */
+    if (k > 0 && k <= n && a[k - 1] != 0 && strcmp(name, "QPeek")) idle[me] = 0;   /* got a thread: no longer idle (SchedRun follows); a peek takes nothing */
   }
   log_ev(name, n, ap);
 }
